@@ -45,6 +45,10 @@ def start_models():
     _starts["pheno_oral_trans1"] = _trans1_model(pheno)
     from pharmpy.modeling import add_pk_iiv, create_joint_distribution
 
+    from pharmpy.modeling import add_iiv, mu_reference_model, remove_iiv
+
+    # the first eta is mu-referenced, a later one (added afterwards) is not
+    _starts["pheno_partial_mu"] = add_iiv(mu_reference_model(remove_iiv(pheno, "VC")), "VC", "exp")
     # four etas in one joint block (two-compartment model with IIV on every PK parameter)
     _starts["pheno_4block"] = create_joint_distribution(add_pk_iiv(add_peripheral_compartment(pheno)))
     _starts["pred_nl"] = _pred_model()
